@@ -26,8 +26,8 @@ void ProofGraph::printProofGraph( )
 
 void ProofGraph::transfProofForReduction( )
 {
-	// Initialize C-random number generator with fixed seed to ensure reproducibility
-	srand(config.getRandomSeed());
+	// Initialize the random number generator of this graph with the configured seed to ensure reproducibility
+	randomGenerator.seed(config.getRandomSeed());
 	// Fill proof
 	fillProofGraph();
 
